@@ -78,8 +78,19 @@ class DictNode(Node):
         content = gettype(self.module_name, self.class_name)()
         key_types = self.children["key_types"].construct()
         for k_type, (key, val) in zip(key_types, self.children["content"].items()):
-            content[k_type(key)] = val.construct()
+            content[self._restore_key(k_type, key)] = val.construct()
         return content
+
+    @staticmethod
+    def _restore_key(k_type, key):
+        # Keys are stored as their json text. json writes True/False/None as
+        # "true"/"false"/"null", which the types themselves do not parse:
+        # bool("false") is True and NoneType takes no argument.
+        if isinstance(k_type, type) and issubclass(k_type, (bool, np.bool_)):
+            return k_type(key == "true")
+        if k_type is type(None):
+            return None
+        return k_type(key)
 
 
 def defaultdict_get_state(obj: Any, save_context: SaveContext) -> dict[str, Any]:
